@@ -78,6 +78,65 @@ pub enum Mutation {
     AppendRandom { len: usize, seed: u32 },
     /// insert a well-formed READY whose property list has `n` tiny properties
     ManyProps { at: usize, n: usize },
+    /// rewrite one whole field of the 64-byte greeting (see `greeting_field`): the signature
+    /// stays valid, so the field's parser is actually reached
+    GreetingField { field: u8, pattern: u8, seed: u32 },
+}
+
+/// (start, end) of the greeting fields a peer controls: signature padding, version major,
+/// version minor, mechanism, as-server, filler
+pub const GREETING_FIELDS: [(usize, usize); 6] = [(1, 9), (10, 11), (11, 12), (12, 32), (32, 33), (33, 64)];
+pub const FIELD_PATTERNS: u8 = 9;
+
+/// boundary contents for a greeting field of `len` bytes
+pub fn field_pattern(len: usize, pattern: u8, seed: u32) -> Vec<u8> {
+    let mut v = match pattern % FIELD_PATTERNS {
+        0 => vec![0x00; len],
+        1 => vec![0xFF; len],
+        // letters all the way: no NUL terminator anywhere in the field
+        2 => (0..len).map(|i| b'A' + (i % 26) as u8).collect(),
+        // a known name, a NUL, then junk
+        3 => {
+            let mut v = b"NULL\0".to_vec();
+            v.extend(fill(seed, len));
+            v
+        }
+        // NUL first, then a known name
+        4 => {
+            let mut v = b"\0NULL".to_vec();
+            v.extend(vec![0u8; len]);
+            v
+        }
+        // a known name repeated to the end of the field
+        5 => b"NULL".iter().cycle().take(len).copied().collect(),
+        // not UTF-8
+        6 => (0..len).map(|i| 0x80 | (i as u8)).collect(),
+        // everything zero except the last byte
+        7 => {
+            let mut v = vec![0u8; len];
+            if len > 0 {
+                v[len - 1] = b'X';
+            }
+            v
+        }
+        _ => fill(seed, len),
+    };
+    v.truncate(len);
+    v
+}
+
+/// every (field, pattern) rewrite of a valid greeting
+pub fn greeting_variants() -> Vec<Vec<u8>> {
+    let g = valid_greeting();
+    let mut out = vec![];
+    for (a, b) in GREETING_FIELDS {
+        for pat in 0..FIELD_PATTERNS {
+            let mut x = g.clone();
+            x[a..b].copy_from_slice(&field_pattern(b - a, pat, 7));
+            out.push(x);
+        }
+    }
+    out
 }
 
 #[derive(Debug, Clone, Serialize, Deserialize, PartialEq, Eq, Hash)]
@@ -188,6 +247,12 @@ impl HostileSpec {
                     let pos = pos.min(data.len());
                     data.splice(pos..pos, ins);
                 }
+                Mutation::GreetingField { field, pattern, seed } => {
+                    let (a, b) = GREETING_FIELDS[*field as usize % GREETING_FIELDS.len()];
+                    if data.len() >= b {
+                        data[a..b].copy_from_slice(&field_pattern(b - a, *pattern, *seed));
+                    }
+                }
             }
         }
         data
@@ -195,7 +260,7 @@ impl HostileSpec {
 }
 
 pub fn gen_mutation(src: &mut Src<'_>, flood_max: usize) -> Mutation {
-    match src.weighted(&[5, 3, 3, 5, 3, 3, 1, 1]) {
+    match src.weighted(&[5, 3, 3, 5, 3, 3, 1, 1, 2]) {
         1 => Mutation::Truncate(src.range(0, 400)),
         0 => Mutation::Size {
             frame: src.below(8),
@@ -229,9 +294,14 @@ pub fn gen_mutation(src: &mut Src<'_>, flood_max: usize) -> Mutation {
             len: src.range(1, 300),
             seed: src.next() as u32,
         },
-        _ => Mutation::ManyProps {
+        7 => Mutation::ManyProps {
             at: src.below(4),
             n: src.range(100, 4000),
+        },
+        _ => Mutation::GreetingField {
+            field: src.below(GREETING_FIELDS.len()) as u8,
+            pattern: src.below(FIELD_PATTERNS as usize) as u8,
+            seed: src.next() as u32,
         },
     }
 }
